@@ -19,7 +19,7 @@
     other on the same window. *)
 From Coq Require Import List ZArith Lia Bool.
 From Coq Require Import ZifyBool ZifyNat.
-From Webp Require Import Base.Res Vp8l.Vp8lArr Vp8l.Vp8lPrefix Vp8l.Vp8lCanon Vp8l.Vp8lLut.
+From Webp Require Import Base.Res Vp8l.Vp8lArr Vp8l.Vp8lPrefix Vp8l.Vp8lCanon Vp8l.Vp8lLut Vp8l.Vp8lLut2.
 Import ListNotations.
 Open Scope Z_scope.
 
@@ -281,6 +281,60 @@ Qed.
     ReadSymbol calls on the same tables return; and a group the decoder does NOT send down the
     packed path is read by those calls, so both branches of decodeImageData agree with
     [seq_read]. *)
+
+(* ------------------------------------------------------------------ *)
+(** * The branch of decodeImageData that does not use the packed table
+
+    ReadSymbol on the green table, then (for a literal) on the red, blue and alpha tables, each on
+    the window shifted by the bits consumed so far (SetBitPos(BitPos + bits) then PrefetchBits). *)
+Definition seq_read_lut (g r b a : arr entry) (w : Z) : pread * Z :=
+  let '(gv, gn) := lut_read 8 g w in
+  if 256 <=? gv then (PSym gv, gn)
+  else
+    let '(rv, rn) := lut_read 8 r (w / 2 ^ gn) in
+    let '(bv, bn) := lut_read 8 b (w / 2 ^ (gn + rn)) in
+    let '(av, an) := lut_read 8 a (w / 2 ^ (gn + rn + bn)) in
+    (PLit (argb_of gv rv bv av), gn + rn + bn + an).
+
+(** for ANY four accepted length vectors (lengths up to 15, second-level tables included) the
+    table reads are the tree walks *)
+Theorem seq_read_lut_eq_trees : forall lg lr lb la tg tr tb ta g r b a w,
+  tree_of_lens lg = Ok tg -> lut_build 8 lg = Ok g ->
+  tree_of_lens lr = Ok tr -> lut_build 8 lr = Ok r ->
+  tree_of_lens lb = Ok tb -> lut_build 8 lb = Ok b ->
+  tree_of_lens la = Ok ta -> lut_build 8 la = Ok a -> 0 <= w ->
+  seq_read tg tr tb ta w = Some (seq_read_lut g r b a w).
+Proof.
+  intros lg lr lb la tg tr tb ta g r b a w Tg Bg Tr Br Tb Bb Ta Ba Hw.
+  assert (P : forall n x, 0 <= x -> 0 <= n -> 0 <= x / 2 ^ n).
+  { intros n x Hx Hn. apply Z.div_pos; [exact Hx|apply Z.pow_pos_nonneg; lia]. }
+  unfold seq_read, seq_read_lut.
+  destruct (lut_decode_eq_canonical 8 lg tg g w ltac:(lia) Tg Bg Hw) as (gv & gn & Wg & Lg).
+  rewrite Wg, Lg. pose proof (walk_nonneg _ _ _ _ Wg) as Hgn.
+  destruct (256 <=? gv); [reflexivity|].
+  destruct (lut_decode_eq_canonical 8 lr tr r _ ltac:(lia) Tr Br (P gn w Hw Hgn)) as (rv & rn & Wr & Lr).
+  rewrite Wr, Lr. pose proof (walk_nonneg _ _ _ _ Wr) as Hrn.
+  destruct (lut_decode_eq_canonical 8 lb tb b _ ltac:(lia) Tb Bb (P (gn + rn) w Hw ltac:(lia))) as (bv & bn & Wb & Lb).
+  rewrite Wb, Lb. pose proof (walk_nonneg _ _ _ _ Wb) as Hbn.
+  destruct (lut_decode_eq_canonical 8 la ta a _ ltac:(lia) Ta Ba (P (gn + rn + bn) w Hw ltac:(lia))) as (av & an & Wa & La).
+  rewrite Wa, La. reflexivity.
+Qed.
+
+(** Both branches of the decoder's pixel loop read the same thing: on every group that
+    readHuffmanCodes marks UsePackedTable, the packed read = the four ReadSymbol calls. *)
+Corollary packed_read_eq_lut_reads :
+  forall lg lr lb la mg mr mb ma tg tr tb ta g r b a w,
+  table_of lg mg tg g -> table_of lr mr tr r -> table_of lb mb tb b -> table_of la ma ta a ->
+  mg + mr + mb + ma < 6 -> 0 <= w ->
+  packed_read (packed_build g r b a) w = seq_read_lut g r b a w.
+Proof.
+  intros lg lr lb la mg mr mb ma tg tr tb ta g r b a w Tg Tr Tb Ta Hsum Hw.
+  pose proof (packed_read_eq_sequential _ _ _ _ _ _ _ _ _ _ _ _ _ _ _ _ w Tg Tr Tb Ta Hsum Hw) as H1.
+  destruct Tg as (_ & _ & Tg & Bg). destruct Tr as (_ & _ & Tr & Br).
+  destruct Tb as (_ & _ & Tb & Bb). destruct Ta as (_ & _ & Ta & Ba).
+  pose proof (seq_read_lut_eq_trees _ _ _ _ _ _ _ _ _ _ _ _ w Tg Bg Tr Br Tb Bb Ta Ba Hw) as H2.
+  rewrite H1 in H2. now injection H2.
+Qed.
 
 (** Non-vacuity: a group with a 2-symbol green code, one-symbol red and alpha, 4-symbol blue. *)
 Example packed_example :
